@@ -9,6 +9,7 @@
              'ghost': '__CPROVER_assert(spec_c10_elemsz_ok(sizeof(struct sop_storage_type)) && sizeof(self->storage) == SOP_CAP * sizeof(struct sop_storage_type), "static_object_pool ctor establishes the precondition of pool_engage");'}],
  'unwind': 8, 'complete_unwinding': 'pool_engage pushes Capacity <= 6 cells; walks bounded by the capacity',
  'trusted': ['glue of the recipe: data layout of static_object_pool / storage_type written out in C (constexpr members, std::array, alignas are outside the cxx2c rule set)'],
+ 'native_cxx_probes': [{'file': 'units/C10/sop_layout_probe.cpp', 'what': 'cell layout of static_object_pool<T,3> for T = alignas(16), alignas(32), 1-byte, 41-byte, long double: size and alignment of a cell suffice for T and for the free-list link, cells tile the array'}],
  'witness': {'unwind': 8},
 } @*/
 #include "vc.h"
